@@ -305,4 +305,23 @@ META = {
         "post": post_c18,
         "exhaustive_key": "",
     },
+    "C14": {
+        "level": "exploration",
+        "race": True,
+        "evaluations": ["cases"],
+        "required": ["cases", "ops", "cleanups", "cases_with_context", "late_cleanup_cases", "porcupine:Ok", "canary_race_reports", "verbose_checks", "checks_run"],
+        "show": ["cases", "ops", "cleanups", "late_cleanup_cases", "porcupine:Ok", "porcupine:Illegal", "porcupine:Unknown", "race_reports_distinct", "canary_race_reports"],
+        "rule": "binary built with -race; each case starts G in {2,4,8,16,32} goroutines behind a barrier, each running a random script over {Helper, Name, Log, "
+                "Logf, Error, Errorf, Fail, Failed, Context, Cleanup} on the case's T (variants: all scripts start with Context(); goroutines that outlive the "
+                "body, wake on context cancellation and register cleanups while rapid runs the cleanups; verbose logging on/off; cases driven by Check and by "
+                "VerifRecord for a per-case outcome); monitors: race detector reports = 0, porcupine linearizability of every per-T history against the "
+                "sequential model {failed, ctx}, outcome failed iff a failing call was made, cleanups registered = ran exactly once, one context per case, "
+                "live during and cancelled after; a canary child with a deliberate race proves the detector is live; "
+                "non-trivial+distinct = distinct global call orders (sequence of (goroutine, op) by call tick) observed",
+        "assumptions": COMMON_ASSUME + ["absence of races is established only for the interleavings the scheduler produced",
+                                        "trusted: Go race detector, porcupine v1.3.0"],
+        "level_text": "Race detector + linearizability checking of recorded histories + end-state conservation checks over thousands of concurrent cases.",
+        "technique": "Go race detector on barrier-released goroutine scripts; porcupine linearizability check of client-boundary histories; conservation monitors (cleanups, context identity)",
+        "max_counters": [],
+    },
 }
